@@ -163,12 +163,13 @@ def _d1d2(f, x, dt):
 
 
 class Jet:
-    __slots__ = ("v", "g", "H")
+    __slots__ = ("v", "g", "H", "d")
 
-    def __init__(self, v, g, H):
+    def __init__(self, v, g, H, d):
         self.v = v      # (P,)
         self.g = g      # (n, P)
         self.H = H      # (n, n, P)
+        self.d = d      # (n,) bool: syntactic dependency on each differentiation variable
 
 
 class JetAlg:
@@ -193,57 +194,70 @@ class JetAlg:
         self._zv = np.zeros(P, dtype=dtype)
         self._zg = np.zeros((self.n, P), dtype=dtype)
         self._zH = np.zeros((self.n, self.n, P), dtype=dtype)
+        self._zd = np.zeros(self.n, dtype=bool)
+        # sing[j, p]: a non-differentiable elementary operation whose operand depends on
+        # variable j was met at point p (entry-level refinement of `regular`)
+        self.sing = np.zeros((self.n, P), dtype=bool)
 
     def _chk(self, j):
         self.ok &= np.isfinite(j.v)
         return j
 
+    def _flag(self, reg, dep):
+        reg = np.broadcast_to(np.asarray(reg, dtype=bool), (self.P,))
+        self.regular &= reg
+        if dep.any() and not reg.all():
+            self.sing[np.ix_(dep, ~reg)] = True
+
     def const(self, c):
-        return Jet(self._zv + self.dt(c), self._zg, self._zH)
+        return Jet(self._zv + self.dt(c), self._zg, self._zH, self._zd)
 
     def var(self, name):
         g = self._zg
+        d = self._zd
         if name in self.index:
             g = np.zeros((self.n, self.P), dtype=self.dt)
             g[self.index[name], :] = 1
-        return Jet(self._zv + self.values.get(name, self.dt(0)), g, self._zH)
+            d = np.zeros(self.n, dtype=bool)
+            d[self.index[name]] = True
+        return Jet(self._zv + self.values.get(name, self.dt(0)), g, self._zH, d)
 
     def param(self, name):
         return self.const(self.params[name])
 
     def add(self, a, b):
         with np.errstate(all="ignore"):
-            return self._chk(Jet(a.v + b.v, a.g + b.g, a.H + b.H))
+            return self._chk(Jet(a.v + b.v, a.g + b.g, a.H + b.H, a.d | b.d))
 
     def sub(self, a, b):
         with np.errstate(all="ignore"):
-            return self._chk(Jet(a.v - b.v, a.g - b.g, a.H - b.H))
+            return self._chk(Jet(a.v - b.v, a.g - b.g, a.H - b.H, a.d | b.d))
 
     def neg(self, a):
-        return Jet(-a.v, -a.g, -a.H)
+        return Jet(-a.v, -a.g, -a.H, a.d)
 
     def mul(self, a, b):
         with np.errstate(all="ignore"):
             o = a.g[:, None, :] * b.g[None, :, :]
             return self._chk(
                 Jet(a.v * b.v, a.v * b.g + b.v * a.g,
-                    a.v * b.H + b.v * a.H + o + o.transpose(1, 0, 2))
+                    a.v * b.H + b.v * a.H + o + o.transpose(1, 0, 2), a.d | b.d)
             )
 
     def _chain(self, a, fv, d1, d2):
         with np.errstate(all="ignore"):
             o = a.g[:, None, :] * a.g[None, :, :]
-            return self._chk(Jet(fv, d1 * a.g, d1 * a.H + d2 * o))
+            return self._chk(Jet(fv, d1 * a.g, d1 * a.H + d2 * o, a.d))
 
     def un(self, f, a):
         fv, d1, d2, reg = _d1d2(f, a.v, self.dt)
-        self.regular &= reg
+        self._flag(reg, a.d)
         return self._chain(a, fv, d1, d2)
 
     def div(self, a, b):
         one = self.dt(1)
         with np.errstate(all="ignore"):
-            self.regular &= b.v != 0
+            self._flag(b.v != 0, b.d)
             r = self._chain(b, one / b.v, -one / (b.v * b.v), self.dt(2) / (b.v * b.v * b.v))
         return self.mul(a, r)
 
@@ -255,15 +269,15 @@ class JetAlg:
         with np.errstate(all="ignore"):
             fv = np.power(x, dt(kf))
             if kf == 0.0:
-                return self._chk(Jet(fv, self._zg, self._zH))
+                return self._chk(Jet(fv, self._zg, self._zH, a.d))
             if kf.is_integer() and kf >= 1:
                 d1 = dt(kf) * np.power(x, dt(kf - 1))
                 d2 = self._zv if kf == 1.0 else dt(kf * (kf - 1)) * np.power(x, dt(kf - 2))
                 return self._chain(a, fv, d1, d2)
             if kf.is_integer():      # negative integer: differentiable where x != 0
-                self.regular &= x != 0
+                self._flag(x != 0, a.d)
             else:                    # non-integer: smooth only for x > 0
-                self.regular &= x > 0
+                self._flag(x > 0, a.d)
             d1 = dt(kf) * np.power(x, dt(kf - 1))
             d2 = dt(kf * (kf - 1)) * np.power(x, dt(kf - 2))
             return self._chain(a, fv, d1, d2)
@@ -273,11 +287,11 @@ class JetAlg:
         with np.errstate(all="ignore"):
             fv = np.power(a.v, b.v)
             pos = a.v > 0
-            self.regular &= pos
+            self._flag(pos, a.d | b.d)
             ok_saved = self.ok.copy()
             j = self.un("exp", self.mul(b, self.un("log", a)))
             self.ok = ok_saved & np.isfinite(fv)
-        return Jet(fv, j.g, j.H)
+        return Jet(fv, j.g, j.H, a.d | b.d)
 
 
 # --------------------------------------------------------------------------- polynomials
